@@ -456,3 +456,17 @@ func TestRegressQueryCollectionReverse(t *testing.T) {
 	evid.ReportKnown(t, prop, "C20-resbadger-reverse-query-empty", msg != "", msg, c)
 	ev.Case(true, evid.Hash("regress-qcoll-reverse"), "regress")
 }
+
+func TestRegressResbadgerDeleteUndecodable(t *testing.T) {
+	// a typed resbadger model without index set whose stored JSON no longer fits the type (a
+	// change event stored a string in a number field): the delete event must go through
+	c := Case{Cfg: Cfg{Pkg: "resbadger", Typed: true}, Steps: []Step{
+		{K: "create", RID: "svc.m.1", V: `{"a":"x","n":1}`},
+		{K: "change", RID: "svc.m.1", Vals: map[string]string{"n": `"not a number"`}},
+		{K: "delete", RID: "svc.m.1"},
+		{K: "get", RID: "svc.m.1"},
+	}}
+	msg, _ := run(c)
+	evid.ReportKnown(t, prop, "C20-resbadger-delete-fails-after-deleting", msg != "", msg, c)
+	ev.Case(true, evid.Hash("regress-delete-undecodable"), "regress")
+}
